@@ -630,6 +630,13 @@ def getitem(eng, obj, idx, st, line=0):
             yield from _seq_getitem(eng, obj, V.seq_of(V.Val.a(obj.t)), idx, st1, "tuple")
         elif tag == "ref" and obj.hint is list:
             yield from _seq_getitem(eng, obj, z3.Select(st1.lists, V.Val.a(obj.t)), idx, st1, "list")
+        elif tag == "ref" and obj.hint is None:
+            # an object read from a container / field without a declared type: its class is decided by the path condition
+            for st2, pycls in eng.class_of(obj, st1):
+                m = eng.lookup_method(pycls, "__getitem__")
+                if m is None:
+                    raise Unsupported(f"subscript of an object of class {pycls.__name__} (line {line})")
+                yield from eng.call(BoundMethod(SV(obj.t, hint=pycls), m), [idx], {}, st2, line)
         else:
             raise Unsupported(f"subscript of symbolic {tag} {obj} (line {line})")
 
@@ -703,6 +710,14 @@ def setitem(eng, obj, idx, v, st, line=0):
     if isinstance(obj, dict) and not isinstance(idx, SV):
         obj[idx] = v  # concrete local dict (not shared across forks: copied below)
         yield st, None
+        return
+    if isinstance(obj, SV) and obj.hint is None:
+        # an object read from a container / field without a declared type: its class is decided by the path condition
+        for st2, pycls in eng.class_of(obj, st):
+            m = eng.lookup_method(pycls, "__setitem__")
+            if m is None:
+                raise Unsupported(f"item assignment on an object of class {pycls.__name__}")
+            yield from eng.call(BoundMethod(SV(obj.t, hint=pycls), m), [idx, v], {}, st2, line)
         return
     raise Unsupported(f"item assignment on {obj!r}")
 
